@@ -25,6 +25,7 @@
 #include <sys/types.h>
 #include <unistd.h>
 #include <fcntl.h>
+#include <dirent.h>
 
 namespace ioc {
 
@@ -73,6 +74,19 @@ struct ScratchFile
         return b;
     }
 };
+
+// removes the scratch files a (crashed) worker left behind: their names contain "-<pid>-"
+inline void remove_scratch_of(pid_t pid)
+{
+    std::string tag = "-" + std::to_string(long(pid)) + "-";
+    std::vector<std::string> victims;
+    if (DIR* d = opendir(io_dir().c_str()))
+    {
+        while (dirent* de = readdir(d)) { std::string n = de->d_name; if (n.find(tag) != std::string::npos) victims.push_back(n); }
+        closedir(d);
+    }
+    for (auto const& n : victims) unlink((io_dir() + "/" + n).c_str());
+}
 
 // ------------------------------------------------------------------------------------------------ unit runner
 // Child side: one record per case.
@@ -187,6 +201,7 @@ inline void run_unit(vh::Ctx& ctx, std::string const& unit, Body body, double li
         close(fd[0]);
         int st = 0; waitpid(pid, &st, 0);
         if (done && WIFEXITED(st) && WEXITSTATUS(st) == 0) return;
+        remove_scratch_of(pid);      // a worker that died could not run its ScratchFile destructors
         // the child died: attribute to the case in flight and resume after it
         std::string status;
         if (WIFSIGNALED(st))
